@@ -30,6 +30,10 @@ pub const R_GARBAGE: u8 = 4;
 pub const T_WRITE: u8 = 0;
 pub const T_READ: u8 = 1;
 pub const T_GARBAGE: u8 = 2;
+/// rekey_manually(Some(k1), Some(k2)) on the endpoint under test and on the shadow peer
+pub const T_REKEY_MANUAL: u8 = 3;
+/// rekey_outgoing + rekey_incoming on the endpoint under test, mirrored on the shadow peer
+pub const T_REKEY_AUTO: u8 = 4;
 
 #[derive(Clone, Debug, Serialize, Deserialize)]
 pub struct Case {
@@ -216,6 +220,28 @@ fn oracle(c: &Case, acc: &mut Acc) -> CaseResult {
                             ensure!(res.is_err(), "{who}: transport step {k}: garbage accepted");
                         }
                     },
+                    T_REKEY_MANUAL => {
+                        let (k1, k2) = ([0x11u8; 32], [0x22u8; 32]);
+                        match &mut et {
+                            T::F(t) => t.rekey_manually(Some(&k1), Some(&k2)),
+                            T::L(t) => t.rekey_manually(Some(&k1), Some(&k2)),
+                        }
+                        pt.rekey_manually(Some(&k1), Some(&k2));
+                    },
+                    T_REKEY_AUTO => {
+                        match &mut et {
+                            T::F(t) => {
+                                t.rekey_outgoing();
+                                t.rekey_incoming();
+                            },
+                            T::L(t) => {
+                                t.rekey_outgoing();
+                                t.rekey_incoming();
+                            },
+                        }
+                        pt.rekey_incoming();
+                        pt.rekey_outgoing();
+                    },
                     _ => fail!("bad transport op"),
                 }
             }
@@ -253,6 +279,12 @@ fn nth_seq(mut idx: usize, a: usize) -> Vec<u8> {
         idx /= a;
     }
     ops
+}
+
+/// can `role` write in transport mode of this pattern (false only for a one-way responder)?
+fn c_role_can_write(pattern: &str, initiator: bool) -> bool {
+    let oneway = rn::pattern(pattern).map_or(false, |p| p.is_oneway());
+    !oneway || initiator
 }
 
 fn n_seqs_upto(depth: usize, a: usize) -> usize {
@@ -304,8 +336,15 @@ pub fn run(ctx: &Ctx) {
                     cases.push(mk(Some(true), vec![]));
                 } else {
                     for stateless in [false, true] {
-                        for t in 0..9u8 {
-                            cases.push(mk(Some(stateless), vec![t / 3, t % 3]));
+                        for t in 0..25u8 {
+                            // length-2 continuations over {write, read, garbage, manual rekey, auto rekey};
+                            // a rekey as second step is followed by one more write and read
+                            let mut ops = vec![t / 5, t % 5];
+                            if t % 5 >= 3 {
+                                ops.push(if c_role_can_write(name, role) { T_WRITE } else { T_READ });
+                                ops.push(if c_role_can_write(name, role) { T_READ } else { T_WRITE });
+                            }
+                            cases.push(mk(Some(stateless), ops));
                         }
                     }
                 }
@@ -327,7 +366,7 @@ pub fn run(ctx: &Ctx) {
         ctx.tier.pick(20_000, 200_000),
         move || {
             let names = names.clone();
-            (any::<u16>(), any::<u16>(), any::<bool>(), prop::collection::vec(prop_oneof![3 => Just(W_OK), 1 => Just(W_SMALL), 3 => Just(R_GENUINE), 1 => Just(R_STALE), 1 => Just(R_GARBAGE)], 0..14), prop_oneof![1 => Just(None), 3 => any::<bool>().prop_map(Some)], prop::collection::vec(0u8..3, 0..8))
+            (any::<u16>(), any::<u16>(), any::<bool>(), prop::collection::vec(prop_oneof![3 => Just(W_OK), 1 => Just(W_SMALL), 3 => Just(R_GENUINE), 1 => Just(R_STALE), 1 => Just(R_GARBAGE)], 0..14), prop_oneof![1 => Just(None), 3 => any::<bool>().prop_map(Some)], prop::collection::vec(0u8..5, 0..10))
                 .prop_map(move |(pi, pk, initiator, hs_ops, conv, t_ops)| {
                     let (name, nm) = &names[pick(pi, names.len())];
                     let _ = seed;
